@@ -149,9 +149,12 @@ TrSolve ==
 
 (* ------------------------------------------------------------ simulate: the frame (C13) *)
 SimN(ev) == ev.N
+\* (a frame may be the projection of a larger batch onto ev.N kept agents: full_N agents were simulated, full_rows rows returned)
 FrameFail(ev) ==
   IF Len(ev.rows) # M.T * ev.N \/ Len(ev.index) # M.T * ev.N
      THEN Fail("row-count", ToString(<<Len(ev.rows), M.T, ev.N>>))
+  ELSE IF "full_rows" \in DOMAIN ev /\ ev.full_rows # M.T * ev.full_N
+     THEN Fail("row-count", ToString(<<"whole frame", ev.full_rows, M.T, ev.full_N>>))
   ELSE IF ev.index # PanelIndex(M.T, ev.N)
      THEN Fail("frame-index", ToString(ev.index))
   ELSE IF Grp("c13") /\ (ToSet(ev.cols) # PanelColumns(M, ToSet(ev.targets)) \/ Len(ev.cols) # Cardinality(ToSet(ev.cols)))
